@@ -4,7 +4,7 @@ import json, os
 HERE = os.path.dirname(os.path.dirname(os.path.abspath(__file__)))
 TECH = "explicit-state bounded exhaustive exploration of the real library (BFS over respondent/config/history states) against a respondent-level reference model"
 CHECKS = {
- "C02": ("every (data set <=N, plain-subtotal config) state of 11 schemas covering all nine count-extractor classes plus strands: the six per-cell base matrices, 1-D/2-D margins, table base/margin (scalar/1-D/2-D form decided by array-ness), [min,max] ranges and minimum-base masks at thresholds 1,2 are compared with respondent-level eligibility sums", "4/C02"),
+ "C02": ("every (data set <=N, plain-subtotal config) state of ~25 schemas covering all nine count-extractor classes, enum / categorical-date pairings, numeric-mean and fractional-weight responses, square per-item tables and strands (plus a multitable cube set with a single-column filter cube and a table with subtotal differences for the mask relation): the six per-cell base matrices, 1-D/2-D margins, table base/margin (scalar/1-D/2-D form decided by array-ness), [min,max] ranges and minimum-base masks at thresholds 1,2 are compared with respondent-level eligibility sums", "4/C02"),
  "C03": ("same state space as C02 incl. the empty survey: proportions must equal oracle count/base (NaN iff base 0), lie in [0,1], percentages = 100x, base elements of a categorical dimension sum to 1, margin proportions = margin/table base; strands likewise", "4/C03"),
  "C04": ("(data set, insertion list) states: ONE insertion with positive/negative over all 1023 subset pairs of ids+stale+missing, pairs and both-dimension lists from a 12-spec alphabet, on CAT/CAT_DATE crossed with CAT, MR, CA, numeric and numeric-array responses and strands; oracles: signed-sum arithmetic, rows-first = columns-first intersections, NaN rules for differences / wave differences, and merge equivalence (every listed measure of a plain subtotal equals the library's own output for the data set with the addends merged)", "4/C04"),
  "C11": ("states of the C02 family plus difference / both-dimension insertion configs: variance, std-dev, std-err and MoE of row/column/table proportions (and strand twins) must equal the respondent-level weighted variance of the +1/-1/0 indicator over the proportion's base", "4/C11"),
@@ -12,7 +12,7 @@ CHECKS = {
  "C16": ("CAT/MR pairings, 2-D and 3-D, missing category of every dimension at every payload position: column index = 100 x column proportion / (members of the row element over respondents eligible for it, any column answer), NaN on subtotals", "4/C16"),
  "C15": ("sum responses (CAT x CAT, CAT x MR, MR x CAT, numeric-array x CAT, strands; empty cells as 0 and as NaN) x plain subtotals on rows/columns/both: every share = respondent-level sum / base-row, base-column or base-table total, block by block; base cells add up to 1", "4/C15"),
  "C14": ("(data set, one of all 125 assignments of {none,-1,0,1,2.5} to three categories, subtotal config) states on CAT x valued, valued x CAT, MR pairings, weighted, strands: scale mean / population sd / expanded-respondent median / std-err (sd over sqrt of the weighted margin), None-ness, NaN for vectors without valued respondents, overall margins", "4/C14"),
- "C17": ("(data set, insertion config incl. differences, 13 filter-statistics shapes, population in {None,0,1,1000}) states over CAT / CAT_DATE (rows, columns, both, neither) / MR slices and strands: fraction cascade, estimate = population proportion x population x fraction, MoE = 1.959964 x population x fraction x respondent-level std-err, NaN for differences", "4/C17"),
+ "C17": ("(data set, insertion config incl. differences, 15 filter-statistics shapes, population in {None,0,1,1000}) states over CAT / CAT_DATE (rows, columns, both, neither) / MR slices and strands: fraction cascade, estimate = population proportion x population x fraction, MoE = 1.959964 x population x fraction x respondent-level std-err, NaN for differences", "4/C17"),
  "C20": ("through the public API only: (a) the response's mean measure set to EVERY vector over {0,1,2.5,NaN} of length 1-6 (strands) and 2xL, L<=4 (slices) x every window in {absent,None,0,1..L+1}; (b) respondent-level data sets on CAT/MR x CAT_DATE(1-4 periods), non-date control, means, row subtotals: smoothed output = trailing mean of the public unsmoothed output with (w-1) NaN prefix, identity when guards fail, scale mean of smoothed proportions, percentages = 100x", "4/C20"),
  "C07": ("pure configuration space: dimension sizes 1-4, <=3 insertions with every anchor spelling (top/bottom/Top/None/stale/missing/int/str ids), every explicit id sequence over ids+stale up to length n+1, all hidden subsets, pruning with empty-row variants, view- vs analysis-defined and id-less insertions, columns and strands, MR with derived items under explicit orders; oracle = executable specification of the statement; signed and ins_N renderings must name the same sequence", "4/C07"),
  "C09": ("(data set with weights in {0,0.5,1,2}, hide subset, prune flags on both dimensions, none/plain/hidden subtotal) states on CAT, MR, MR x MR, CA pairings and strands: an element is absent iff hidden or (prune and empty) with emptiness decided from respondents' unweighted answers by the statement's bounds, visibility identical to the all-weights-1 run, subtotal rule, shape/is_empty/labels extents", "4/C09"),
@@ -22,7 +22,7 @@ CHECKS = {
  "C06": ("differential over (data set, transform config) states: each partition of a 3-D cube (table = CAT with the missing category first/mid/last, MR, CA items; rows x columns = CAT/MR pairings) must equal on EVERY introspected public output the library's 2-D analysis of the respondents restricted by the model to table element k; CA-as-0th strands = univariate analysis of the sub-variable, partition sets line up cube by cube, tab-book sets, inflated numeric-summary cubes keep every value", "4/C06"),
  "C13": ("(events of 1 or 3 identical respondents, config: subtotal column/row, alpha pair, only-larger flag, column order/hide) states on CAT x CAT (plain and squared weights), CAT x MR with and without overlap measures, MR x MR with overlaps, mean+stddev responses: t and p from the statement's formulas (unweighted or effective bases, Welch, overlap-corrected) computed from respondents; antisymmetry / symmetry / self-zero; index sets = exactly the other displayed columns below alpha (and smaller in only-larger mode), never self, secondary contains primary", "4/C13"),
  "C19": ("pure configuration space: array dimensions (MR rows/columns under element-id schemes 1..n, 0..n-1, 10/20/30, with a derived item; CA items; numeric array; datetime) x 11 transform slots (hide, rename, fill, explicit order, fixed top/bottom, opposing element, opposing insertion, key: alias / subvar_id) x every item x every unambiguous spelling (alias, sub-variable id, element id int/str, position int/str, datetime value), plus stale / malformed references: all ~120 public outputs identical to the alias spelling; unmatched reference == omitted, never raises", "4/C19"),
- "C18": ("explicit exploration of access histories on the real object graph: 13 inputs concentrated on what the library rewrites in place (array-dimension transforms with every id spelling and stale ids, 3-D cubes sharing one transforms dict, tab-book / CA-as-0th / numeric-summary / single-column-filter cube sets, JSON text); events = reads of root and partition properties/methods and new(same|json|envelope|standalone cube) built from the USED argument objects; all histories to depth 2 (3 thorough) from the initial state and from after-read-everything / after-new / after-failed-read; oracle = reference table from pristine copies + full re-evaluation from the used arguments; plus a cooperative two-thread scheduler (switch points = every lazyproperty about to compute, preemption bound 1, 2 thorough, each schedule replayed twice)", "4/C18"),
+ "C18": ("explicit exploration of access histories on the real object graph: 21 inputs concentrated on what the library rewrites in place or caches (incl. categorical-date smoothing, sum measures, alias-keyed element transforms) (array-dimension transforms with every id spelling and stale ids, 3-D cubes sharing one transforms dict, tab-book / CA-as-0th / numeric-summary / single-column-filter cube sets, JSON text); events = reads of root and partition properties/methods and new(same|json|envelope|json-of-envelope|standalone cube) built from the USED argument objects; all histories to depth 2 (3 thorough) from the initial state and from after-read-everything / after-new / after-failed-read; oracle = reference table from pristine copies + full re-evaluation from the used arguments; plus a cooperative two-thread scheduler (switch points = every lazyproperty about to compute, preemption bound 1, 2 thorough, each schedule replayed twice)", "4/C18"),
  "C01": ("every multiset of <=N respondents over each schema's answer-profile alphabet is tabulated into a server payload and the real Cube/partition outputs are compared cell by cell with a respondent-loop oracle; covers all type pairings, missing-category positions, 1-D/2-D/3-D, weighted, numeric and numeric-array responses", "4/C01"),
 }
 PENDING = {}
